@@ -66,6 +66,29 @@ pub fn gen_value(r: &Record, rng: &mut Rng, idx: usize) -> RecordValue {
     }
 }
 
+fn points_ev(batch: Vec<Value>, reals: Vec<Value>, want_reals: bool) -> Value {
+    if want_reals {
+        json!({"ev":"pc_points","pts":batch,"reals":reals,"res":ok(json!(0))})
+    } else {
+        json!({"ev":"pc_points","pts":batch,"res":ok(json!(0))})
+    }
+}
+
+/// the real value of every record of a point as f64 bit limbs (mechanical conversion:
+/// f32 widened exactly, integers converted, scaled integers multiplied and offset)
+fn real_tr(p: &[RecordValue], proto: &[Record]) -> Value {
+    Value::Array(p.iter().zip(proto.iter()).map(|(v, r)| {
+        let x = match (v, &r.data_type) {
+            (RecordValue::Single(f), _) => *f as f64,
+            (RecordValue::Double(f), _) => *f,
+            (RecordValue::ScaledInteger(i), RecordDataType::ScaledInteger { scale, offset, .. }) => *i as f64 * *scale + *offset,
+            (RecordValue::ScaledInteger(i), _) => *i as f64,
+            (RecordValue::Integer(i), _) => *i as f64,
+        };
+        f64_bits(x)
+    }).collect())
+}
+
 fn image_format(v: &Value) -> ImageFormat {
     if v.as_str() == Some("jpeg") {
         ImageFormat::Jpeg
@@ -238,24 +261,34 @@ pub fn run_writer(prog: &Value, dev: &Dev, t: &mut TraceOut) -> WriteOutcome {
                     }
                 }
                 let mut batch: Vec<Value> = Vec::new();
+                let mut reals: Vec<Value> = Vec::new();
+                let want_reals = prog["reals"].as_bool().unwrap_or(false);
                 let mut dead = false;
                 for p in points {
                     let tr = point_tr(&p);
+                    let rl = if want_reals { real_tr(&p, &proto) } else { Value::Null };
                     let f0 = dev.faulted();
                     let r = catch(|| pcw.add_point(p));
                     let fic = dev.faulted() && !f0;
                     match r {
                         Ok(Ok(())) if !fic => {
                             batch.push(tr);
+                            if want_reals {
+                                reals.push(rl);
+                            }
                             if batch.len() >= 4096 {
-                                t.ev(json!({"ev":"pc_points","pts":batch,"res":ok(json!(0))}));
+                                t.ev(points_ev(batch, reals, want_reals));
                                 batch = Vec::new();
+                                reals = Vec::new();
                             }
                         }
                         other => {
                             if !batch.is_empty() {
-                                t.ev(json!({"ev":"pc_points","pts":batch,"res":ok(json!(0)),"fic":0}));
+                                let mut e = points_ev(batch, reals, want_reals);
+                                e["fic"] = json!(0);
+                                t.ev(e);
                                 batch = Vec::new();
+                                reals = Vec::new();
                             }
                             let res = res_unit(other);
                             t.ev(json!({"ev":"pc_point","vals":tr,"res":res,"fic": if fic {1} else {0}}));
@@ -268,7 +301,7 @@ pub fn run_writer(prog: &Value, dev: &Dev, t: &mut TraceOut) -> WriteOutcome {
                     }
                 }
                 if !batch.is_empty() {
-                    t.ev(json!({"ev":"pc_points","pts":batch,"res":ok(json!(0))}));
+                    t.ev(points_ev(batch, reals, want_reals));
                 }
                 if dead {
                     break;
